@@ -101,7 +101,74 @@ thread_local! {
     static FILL_STYLE: std::cell::Cell<u8> = const { std::cell::Cell::new(0) };
 }
 
-pub const FILL_STYLES: [u8; 12] = [0, 1, 2, 3, 4, 5, 6, 7, 8, 9, 10, 11];
+pub const FILL_STYLES: [u8; 16] = [0, 1, 2, 3, 4, 5, 6, 7, 8, 9, 10, 11, 12, 13, 14, 15];
+
+/// a DER TLV of exactly `total` bytes (total >= 2): tag, definite length (minimal where a minimal form of that
+/// total size exists), content from `body`
+fn der_exact(tag: u8, total: usize, body: &mut dyn FnMut(usize) -> Vec<u8>) -> Vec<u8> {
+    let mut v = vec![tag];
+    let content = if total - 2 < 128 {
+        v.push((total - 2) as u8);
+        total - 2
+    } else if total - 3 < 256 {
+        v.push(0x81);
+        v.push((total - 3) as u8);
+        total - 3
+    } else {
+        v.push(0x82);
+        v.push(((total - 4) >> 8) as u8);
+        v.push((total - 4) as u8);
+        total - 4
+    };
+    v.extend(body(content));
+    v
+}
+
+/// nested DER of exactly n bytes: SEQUENCE { INTEGER, INTEGER } (an ECDSA-Sig-Value / DSA signature), or
+/// `x509`: SEQUENCE { SEQUENCE { INTEGER, SEQUENCE { OID } }, SEQUENCE { OID }, BIT STRING } (a certificate
+/// outline), followed by `trailing` bytes outside the outer SEQUENCE
+fn nested_der(n: usize, trailing: usize, x509: bool, seed: u8) -> Option<Vec<u8>> {
+    if n < trailing + if x509 { 24 } else { 8 } || n - trailing > 65000 {
+        return None;
+    }
+    let mut k = 0usize;
+    let mut cnt = |m: usize| -> Vec<u8> {
+        (0..m)
+            .map(|_| {
+                k += 1;
+                seed.wrapping_add((k % 251) as u8) | 1
+            })
+            .collect()
+    };
+    let mut v = der_exact(0x30, n - trailing, &mut |c| {
+        if !x509 {
+            let a = c / 2;
+            let mut b = der_exact(0x02, a, &mut cnt);
+            b.extend(der_exact(0x02, c - a, &mut cnt));
+            b
+        } else {
+            let t = c / 2;
+            let mut b = der_exact(0x30, t, &mut |c2| {
+                let mut x = der_exact(0x02, 3, &mut cnt);
+                x.extend(der_exact(0x30, c2 - 3, &mut |c3| der_exact(0x06, c3, &mut cnt)));
+                x
+            });
+            let rest = c - t;
+            b.extend(der_exact(0x30, 5, &mut |c3| der_exact(0x06, c3, &mut cnt)));
+            b.extend(der_exact(0x03, rest - 5, &mut |c3| {
+                let mut x = vec![0u8];
+                x.extend(cnt(c3 - 1));
+                x
+            }));
+            b
+        }
+    });
+    for i in 0..trailing {
+        v.push(0xe0 + i as u8);
+    }
+    debug_assert_eq!(v.len(), n);
+    Some(v)
+}
 
 /// Run `f` (typically a catalogue constructor) with opaque field contents drawn from another pattern.
 pub fn with_fill_style<T>(style: u8, f: impl FnOnce() -> T) -> T {
@@ -155,9 +222,29 @@ impl W {
     /// `with_fill_style`): 0 = recognisable counting pattern starting at `seed` (default),
     /// 1 = all zero, 2 = `00 ff 00 ff ..`, 3 = `00 80 ff 7f ..` (leading zero before a high
     /// bit), 4 = all ff, 5 = `80 00 00 ..` (high bit first), 6..9 = DER-shaped (tag 06 / 30 / 04 / 02 with a
-    /// definite length that covers the rest of the field).
+    /// definite length that covers the rest of the field), 10 / 11 = SEQUENCE whose length is short / long,
+    /// 12..15 = nested DER (signature value, with trailing bytes, certificate outline).
     pub fn fill(&mut self, n: usize, seed: u8) -> &mut W {
         let style = FILL_STYLE.with(|s| s.get());
+        if (12..=15).contains(&style) {
+            // nested DER: 12 = SEQUENCE { INTEGER, INTEGER } filling the field, 13 / 14 = the same followed by 1 / 3
+            // bytes inside the field, 15 = a certificate outline; fields too short for it get the counting pattern
+            let v = match style {
+                12 => nested_der(n, 0, false, seed),
+                13 => nested_der(n, 1, false, seed),
+                14 => nested_der(n, 3, false, seed),
+                _ => nested_der(n, 0, true, seed),
+            };
+            match v {
+                Some(v) if v.len() == n => self.buf.extend_from_slice(&v),
+                _ => {
+                    for i in 0..n {
+                        self.buf.push(seed.wrapping_add((i % 251) as u8));
+                    }
+                }
+            }
+            return self;
+        }
         if style == 10 || style == 11 {
             // DER SEQUENCE in long form (30 82 hi lo) whose inner length under- (10) or overstates (11) the rest
             let mut v: Vec<u8> = Vec::with_capacity(n);
